@@ -139,10 +139,12 @@ reg("C01", harness="c01_deflate", level="exploration", deadline=(400, 2400), ext
                "consume the stream to its last byte and accept the trailer. Chunked calls hand every chunk over in its own buffer that is scribbled once "
                "consumed; a third of the cases puts the level buffer at an odd address. Reuse part: one stream object used for two one-shot calls "
                "(first call ample or refused at 5 output sizes, text/incompressible/mixed up to 2 MiB, levels x level buffers): the second call must "
-               "decode to its input and equal a fresh object's output byte for byte.",
+               "decode to its input and equal a fresh object's output byte for byte. Encoder part: the ICF->bits kernels (base/_04/_06) on EVERY assignment "
+               "of 16 token realisations (widths 2..48, dense around the per-lane limits) to the four lanes of a half-vector x both halves x bit "
+               "phases 0..7, bit-exact against an independent concatenation of the codes.",
     level_note="inputs outside the families are not covered; trusted: ref/ref_inflate.c (self-checked against zlib), zlib 1.2.13",
-    runs={"quick": [dict(flavour="sim", part="sweep"), dict(flavour="sim", part="reuse"), dict(flavour="lht", part="sweep")],
-          "thorough": [dict(flavour="sim", part="sweep"), dict(flavour="sim", part="reuse"), dict(flavour="h8k", part="sweep"), dict(flavour="lht", part="sweep")]},
+    runs={"quick": [dict(flavour="sim", part="sweep"), dict(flavour="sim", part="reuse"), dict(flavour="sim", part="encdf"), dict(flavour="lht", part="sweep")],
+          "thorough": [dict(flavour="sim", part="sweep"), dict(flavour="sim", part="reuse"), dict(flavour="sim", part="encdf"), dict(flavour="h8k", part="sweep"), dict(flavour="lht", part="sweep")]},
     rule="case = (input, level, flush, wrapper, hist_bits, table, level_buf, api, cpu level); distinct_nontrivial = number of DISTINCT non-empty "
          "output streams (hash of bytes) that were produced and verified; evaluations = compress calls.")
 
